@@ -352,3 +352,6 @@ def check(ctx: Ctx) -> None:
         r10_1_2(ctx, fi, loop, pass_ok)
     ctx.floor("R10.1", 2)
     r10_3(ctx)
+    # characters may only be rewritten by the documented passes before they reach the escaper (rule shared with C11)
+    from .c11 import r11_4
+    r11_4(ctx)
